@@ -4,6 +4,7 @@
  *   scheds <s;s;...>         read-size schedules (each a cyclic comma list)
  *   base <blob>              base file
  *   expect <blob>            the base file's content
+ *   recover <0|1>            1: clear the error after every failed read and read on (see libops.c)
  *   detail <0|1>             print a D line for every (mutant, schedule), not only for the unusual classes
  *   file <blob> [limit=<n>]  case: read this file
  *   subst <lo> <hi> vals=bits|all limit=<n>   one case per position, substitutes tried in-process
@@ -123,6 +124,7 @@ int cmd_readenum(FILE *job, FILE *out) {
         else if(!strcmp(t[0], "base")) { c.cbase = malloc(sizeof(blob)); *c.cbase = blob_arg(t[1]); }
         else if(!strcmp(t[0], "expect")) { c.cexpect = malloc(sizeof(blob)); *c.cexpect = blob_arg(t[1]); }
         else if(!strcmp(t[0], "detail")) c.detail = atoi(t[1]);
+        else if(!strcmp(t[0], "recover")) g_read_recover = atoi(t[1]);
         else if(!strcmp(t[0], "chunk")) chunk = atoi(t[1]);
         else {
             if(!strcmp(t[0], "subst") || !strcmp(t[0], "trunc")) {
